@@ -95,7 +95,7 @@ def run_tags_chunk(chunk):
             # cfg_scope: the config names another scope and the one under test comes from --tag-scope on the command line
             world.clear_dir(".")
             world.write_tree(c09.project(name, cfgv, cfg_scope or scope))
-            os.mkdir(".git")
+            world.mark_repo("git", as_file=bool(cfg_scope))  # the command-line-scope runs also have `.git` as a FILE (linked work tree)
             # fetch_fault: a remote exists, fetching is on (the default) and `git fetch` fails (offline)
             fake = fakevcs.install(fakevcs.FakeVCS("git", tags_all=served_all, tags_merged=served_head, status=[],
                                                    fail=("fetch", 0) if fetch_fault else None))
